@@ -211,6 +211,14 @@ pub fn long_tail_markdown(corpus: &[String], rng: &mut Rng) -> String {
     }
     let mut long = words.join(" ");
     match rng.below(4) { 0 => long.push('.'), 1 => long.push('?'), _ => {} }
+    // the long sentence is not always the first thing of its block, nor of its run of text
+    long = match rng.below(6) {
+        0 => format!("Short one. {long}"),
+        1 => format!("Short *one*. Then {long}"),
+        2 => format!("See `this`. {long} And a short one."),
+        3 => format!("{long} Short end."),
+        _ => long,
+    };
     let mut doc = match rng.below(9) {
         0 => format!("- A short item.\n\n- {long}"),
         1 => format!("- A short item.\n- {long}"),
